@@ -291,6 +291,121 @@ def run_server(k0, hint_ms, t_init, idle_after):
     return writes, ka
 
 
+def run_data_server(k0, events, horizon):
+    """real DataProviderServer (configured interval k0, no hint) in virtual time.  events: [(t, kind, arg)] with kind in
+    'line' (bytes delivered to the reader: init, a late init = protocol error answered by the default handling with a
+    FAL notification, garbage) and 'failure' (the adapter calls listener.failure).  Returns every socket write with its
+    virtual time, whichever thread made it."""
+    import lightstreamer_adapter.server as server
+    import fixture
+    S = dsched.Sched()
+    with shims.install(S, chunks=[], end='block') as env:
+        clock = env.clock
+        clock.now = Fraction(0)
+        ad = fixture.data_adapter()
+        srv = server.DataProviderServer(ad, ('h', 1), name='D', keep_alive=k0, thread_pool_size=1)
+        env.sock.chunks.clear()
+        writes = []
+
+        def sendall(data):
+            me = S.me()
+            writes.append((Fraction(clock.now), bytes(data), getattr(me, 'role', '?')))
+        env.sock.sendall = sendall
+        srv.start()
+        q = env.queues[0]
+        writer = [t for t in S.threads if t.role == 'writer'][0]
+        reader = [t for t in S.threads if t.role == 'reader'][0]
+
+        def parked():
+            return (writer.state == 'dead' or (writer.state == 'parked' and writer.pending[0] == 'get' and not q.items)) and \
+                   (reader.state == 'dead' or (reader.state == 'parked' and reader.pending[0] == 'recv' and not env.sock.chunks))
+
+        def advance(t):
+            while True:
+                w = q.waiter
+                if writer.state != 'dead' and w is not None and w['timeout'] is not None and not w['fired'] \
+                        and Fraction(w['start']) + Fraction(w['timeout']) < t:
+                    clock.now = Fraction(w['start']) + Fraction(w['timeout'])
+                    w['fired'] = True
+                    S.yield_('env', None, cond=parked)
+                else:
+                    break
+            clock.now = Fraction(t)
+
+        def body():
+            S.yield_('env', None, cond=parked)
+            for t, kind, arg in events:
+                advance(Fraction(t))
+                if kind == 'line':
+                    env.sock.chunks.append(arg)
+                else:
+                    ad.listener.failure(Exception(arg))
+                S.yield_('env', None, cond=parked)
+            advance(Fraction(horizon))
+        S.spawn('env', 'env', body)
+
+        def chooser(en, sched):
+            for role in ('writer', 'reader', 'worker'):
+                for t in en:
+                    if t.role == role:
+                        return t
+            return en[0]
+        S.run(chooser, max_steps=200000)
+        crashes = [e for e in S.events if e[0] == 'thread-crash' and 'env' not in e[1:3]]
+        S.kill_all()
+    return writes, crashes
+
+
+def data_server_part(ctx, res):
+    """every line a Data server writes — replies, notifications, the FAL of the default exception handling — goes through
+    the one writer, so each of them restarts the silence: a KEEPALIVE comes exactly K after the previous write"""
+    rng = ctx.rng
+    n = 12 if ctx.tier == 'quick' else 200
+    for i in range(n):
+        K = rng.choice([1, 1.5, 2, 0.5])
+        t = Fraction(rng.randint(1, 40), 8)
+        events = [(t, 'line', b'1|DPI|S|ARI.version|S|1.9.1\r\n')]
+        for _ in range(rng.randint(1, 4)):
+            t += Fraction(rng.randint(1, int(K * 8 * 3)), 8)
+            if rng.random() < 0.6:
+                events.append((t, 'line', rng.choice([b'2|DPI|S|ARI.version|S|1.9.1\r\n', b'3|SUB|X|i\r\n', b'4|USB\r\n'])))
+            else:
+                events.append((t, 'failure', 'adapter failure %d' % i))
+        horizon = t + Fraction(int(K * 8 * 3), 8)
+        import os
+        import sys
+        saved_err = sys.stderr
+        sys.stderr = open(os.devnull, 'w')       # the default handling prints the traceback of the protocol error
+        try:
+            writes, crashes = run_data_server(K, events, horizon)
+        finally:
+            sys.stderr = saved_err
+        res.evaluations += 1
+        res.count('data-server-timed')
+        case = {'server': 'data', 'k0': K, 'events': [(str(a), b, c.decode() if isinstance(c, bytes) else c) for a, b, c in events], 'horizon': str(horizon)}
+        bad = None
+        if crashes:
+            bad = 'a library thread died: %r' % (crashes[0],)
+        prev = Fraction(0)
+        for tw, data, role in writes:
+            if role != 'writer':
+                bad = bad or 'line %r written by the %s thread, not by the writer' % (data[:40], role)
+            gap = tw - prev
+            if data == b'KEEPALIVE\r\n':
+                if gap != Fraction(K):
+                    bad = bad or 'KEEPALIVE at %s after %s s of silence (interval %s)' % (tw, gap, K)
+            elif gap > Fraction(K):
+                bad = bad or 'silence of %s s before the line at %s (interval %s)' % (gap, tw, K)
+            prev = tw
+        if horizon - prev > Fraction(K):
+            bad = bad or 'silence of %s s at the end of the run (interval %s)' % (horizon - prev, K)
+        nfal = sum(1 for _, d, _ in writes if b'|FAL|' in d)
+        if nfal:
+            res.nontrivial.add(repr(case))
+        if bad:
+            res.oracle_violations.append({'case': case, 'detail': bad, 'key': {'kind': 'data_server_timing'}})
+
+
 def run(ctx, res):
     rng = ctx.rng
     n = 250 if ctx.tier == 'quick' else 6000
@@ -370,6 +485,7 @@ def run(ctx, res):
             bad = 'keepalives after init not spaced by the interval %s: %r' % (K, [str(x) for x in after[:4]])
         if bad:
             res.oracle_violations.append({'case': case, 'detail': bad, 'key': {'kind': 'interval_change_at_init'}})
+    data_server_part(ctx, res)
     res.traces = res.evaluations
 
 
@@ -395,6 +511,20 @@ def search(ctx, res):
 
 def replay(ctx, data):
     c = data['case']
+    if c.get('server') == 'data':
+        K = c['k0']
+        events = [(Fraction(t), k, (a.encode('ascii') if k == 'line' else a)) for t, k, a in c['events']]
+        writes, crashes = run_data_server(K, events, Fraction(c['horizon']))
+        prev = Fraction(0)
+        bad = [] if not crashes else ['thread died']
+        for tw, d, role in writes:
+            if role != 'writer':
+                bad.append('written by %s' % role)
+            gap = tw - prev
+            if (d == b'KEEPALIVE\r\n' and gap != Fraction(K)) or (d != b'KEEPALIVE\r\n' and gap > Fraction(K)):
+                bad.append('gap %s before %r' % (gap, d[:30]))
+            prev = tw
+        return bool(bad), 'writes %r; %r' % ([(str(t), d[:30], r) for t, d, r in writes[:10]], bad[:3])
     if 'events' in c:
         sc = Script(c['k0'], [(Fraction(t), k, a) for t, k, a in c['events']], Fraction(c['horizon']))
         writes, labels, status, crashes = run_sender(sc)
